@@ -224,7 +224,7 @@ pub fn minimize(orig: &Scenario, prop: &str, clause: &str, budget: u32) -> MinRe
                                     a3.lent_key = false;
                                     changed = true;
                                 }
-                                2 if a3.release == Release::Unlock => {
+                                2 if matches!(a3.release, Release::Unlock | Release::UnlockInDrop) => {
                                     a3.release = Release::Drop;
                                     changed = true;
                                 }
